@@ -15,6 +15,14 @@ CLAIMS = {
          "with every index, conversion and arithmetic operation safe. Proof level because the statement quantifies over all inputs "
          "and all loop iterations; the grammar/normal-form half (NewNumber/Scan) is listed under not_covered until its contracts discharge.",
          "5 C13", "weakest-precondition VCs over go/ssa + SMT (deductive, loop invariants, lemma hints)"),
+ "C19": ("Every method of the three generated ordered maps (RuleASTNodes, ASTNodes, Constraints: Set, Update, Get, GetValue, Has, Len, "
+         "Delete, Filter, Find, Each, EachSafe, Map) and of StringSet (Add, Has, Len, Data) is proved against the insertion-ordered "
+         "dictionary view (key sequence + finite map + ghost position function witnessing that the sequence is a duplicate-free "
+         "enumeration of the keys): representation invariant preserved by every mutator, exact effect on membership, values and "
+         "relative order, absent-key Delete is a no-op, frames, no panic, termination. Induction over operation histories is the "
+         "modular proof itself, so it holds for all sequences and all key universes. MarshalJSON and NewRuleASTNodes/NewStringSet "
+         "(API preconditions) are listed under not_covered.",
+         "5 C19", "weakest-precondition VCs over go/ssa + SMT; data-structure invariant with ghost witness field"),
 }
 
 NOT_APPLICABLE = {
